@@ -45,8 +45,39 @@ def nonorthogonal_wavelet_stream(ctx):
                       first, signature="C01:wavelet-nonorthogonal-adjoint")
 
 
+def interp_leaf_stream(ctx):
+    """Interpolate / Gridding leaves over the parameter space of C07's generator (1-3 grid dims, batch axes, 1-2-D point sets,
+    coordinates on the ties of the kernel window, negative / far outside, per-axis widths and params, both kernels): the
+    random operator trees reach the 3-D / tie combinations only rarely.  Dot test <A x, y> = <x, A^H y> and A.H.H = A in numpy."""
+    sp = core.import_sigpy()
+    from props import C07
+    rng = ctx.rng
+    bad = None
+    for k in range(ctx.n(60, 1500)):
+        c = C07.gen_case(rng)
+        ish = c["bat"] + c["grid"]
+        kw = dict(kernel=c["kernel"], width=c["width"], param=c["param"])
+        A = sp.linop.Interpolate(ish, c["coord"], **kw) if c["op"] == "interp" else sp.linop.Gridding(ish, c["coord"], **kw)
+        rs = np.random.RandomState(rng.randrange(2 ** 31))
+        x = rs.randint(-4, 5, A.ishape) + 1j * rs.randint(-4, 5, A.ishape)
+        y = rs.randint(-4, 5, A.oshape) + 1j * rs.randint(-4, 5, A.oshape)
+        Ax, AHy = np.asarray(A(x)), np.asarray(A.H(y))
+        lhs, rhs = np.vdot(y, Ax), np.vdot(AHy, x)
+        scale = np.linalg.norm(Ax) * np.linalg.norm(y) + np.linalg.norm(AHy) * np.linalg.norm(x) + 1e-30
+        ok = abs(lhs - rhs) <= 1e-9 * scale and list(A.H.oshape) == list(A.ishape) and list(A.H.ishape) == list(A.oshape) \
+            and np.allclose(np.asarray(A.H.H(x)), Ax, rtol=1e-12, atol=1e-12)
+        ctx.count("C01:leaf-stream:%s:%s:%dD" % (c["op"], c["kernel"], len(c["grid"])), key=json.dumps(C07.describe(c), sort_keys=True),
+                  nontrivial=bool(np.any(Ax != 0)), sample={"grid": c["grid"], "batch": c["bat"], "kernel": c["kernel"], "width": c["width"], "param": c["param"]})
+        if not ok and bad is None:
+            bad = dict(kind="oracle", case=C07.describe(c), operator=repr(A), lhs=str(lhs), rhs=str(rhs),
+                       x=np.ravel(x).tolist().__repr__(), y=np.ravel(y).tolist().__repr__())
+    if bad is not None:
+        ctx.violation("C01: <A x, y> != <x, A^H y> for an Interpolate / Gridding leaf", bad, signature="C01:dot:interp-leaf")
+
+
 def run(ctx):
     linop_common.run_linop(ctx, "C01", "Prop_C01.v", 150, 4000, {"adj", "shapes", "applyH", "dot"})
+    interp_leaf_stream(ctx)
     nonorthogonal_wavelet_stream(ctx)
 
 
